@@ -20,6 +20,7 @@ import (
 	"compress/gzip"
 	"io"
 	"net/http"
+	"strconv"
 	"strings"
 
 	"github.com/tmpim/casket"
@@ -51,9 +52,36 @@ type Config struct {
 	Level           int // Compression level
 }
 
+// acceptsGzip reports whether an Accept-Encoding header value offers the
+// gzip coding: it lists gzip (or its alias x-gzip) with a weight other than
+// zero. "gzip;q=0" refuses the coding, and a token that merely contains the
+// letters (such as a made-up "ungzipped") does not name it.
+func acceptsGzip(acceptEncoding string) bool {
+	for _, element := range strings.Split(acceptEncoding, ",") {
+		fields := strings.Split(element, ";")
+		coding := strings.TrimSpace(fields[0])
+		if !strings.EqualFold(coding, "gzip") && !strings.EqualFold(coding, "x-gzip") {
+			continue
+		}
+		weight := 1.0
+		for _, param := range fields[1:] {
+			param = strings.TrimSpace(param)
+			if len(param) > 2 && (param[0] == 'q' || param[0] == 'Q') && param[1] == '=' {
+				if q, err := strconv.ParseFloat(strings.TrimSpace(param[2:]), 64); err == nil {
+					weight = q
+				}
+			}
+		}
+		if weight > 0 {
+			return true
+		}
+	}
+	return false
+}
+
 // ServeHTTP serves a gzipped response if the client supports it.
 func (g Gzip) ServeHTTP(w http.ResponseWriter, r *http.Request) (int, error) {
-	if !strings.Contains(r.Header.Get("Accept-Encoding"), "gzip") {
+	if !acceptsGzip(r.Header.Get("Accept-Encoding")) {
 		return g.Next.ServeHTTP(w, r)
 	}
 outer:
